@@ -1514,3 +1514,61 @@ def define_once(ctx, res):
                    + ": an existing definition (for a subclass: its own "
                    "declaration) is replaced by the added trait")
     res.floor(3)
+
+
+# ---------------------------------------------------------------------------
+# C10.itrait-writers: what goes into an instance-trait dictionary is a
+# private object
+
+@rule("C10.itrait-writers", ["C10", "C08"],
+      "every C store into an object's instance-trait dictionary puts a CTrait "
+      "that was created on that very path (a fresh clone): a caller-supplied "
+      "or class-level trait object installed as an instance trait would be "
+      "shared - definition and notifier list - by every object it is "
+      "installed on")
+def itrait_writers(ctx, res):
+    from .cstore import fresh_oracle, paths_of
+    facts = get_cfacts(ctx)
+    is_fresh = fresh_oracle(ctx, facts)
+    n = 0
+    for fname in facts.defined_functions():
+        src = facts.text(facts.func(fname))
+        if "itrait_dict" not in src or "PyDict_SetItem" not in src:
+            continue
+        try:
+            paths, _, _ = paths_of(ctx, fname)
+        except AnalysisError:
+            continue
+        bad = None
+        sites = 0
+        for p in paths:
+            for it in p.trace:
+                if it[0] != "call" or it[1] != "PyDict_SetItem":
+                    continue
+                args = it[2]
+                if len(args) != 3:
+                    continue
+                d = args[0]
+                # the dictionary is the object's instance-trait dictionary:
+                # the field itself, or the dictionary just created for it
+                is_itrait = "->itrait_dict" in d or any(
+                    s_[0] == "store" and s_[1].endswith("->itrait_dict")
+                    and s_[2] == d for s_ in p.trace)
+                if not is_itrait:
+                    continue
+                sites += 1
+                if not is_fresh(args[2]) and bad is None:
+                    bad = (it, args[2])
+        if not sites:
+            continue
+        n += 1
+        res.instance(fname, facts.loc(facts.func(fname)), store_paths=sites)
+        res.oblige(bad is None, f"{fname}:itrait-store:not-fresh",
+                   f"{CREL}:{bad[0][4] if bad else 0}",
+                   f"{fname} stores `{bad[1][:60] if bad else ''}` into the "
+                   f"instance-trait dictionary: that object was not created "
+                   f"on this path, so several objects (or an object and its "
+                   f"class) end up sharing one CTrait and its notifier list")
+    if n < 1:
+        raise AnalysisError("no store into an instance-trait dictionary found")
+    res.floor(1)
